@@ -64,6 +64,8 @@ type c02Resp struct {
 	Trailers bool `json:"trailers,omitempty"`
 	// TrailerSplit > 0: the trailer block is cut into HEADERS(END_STREAM) + CONTINUATION(END_HEADERS) at that offset
 	TrailerSplit int `json:"trailer_split,omitempty"`
+	// Interim: informational responses (1xx) sent on the stream before the final one, each a header block of its own
+	Interim []string `json:"interim,omitempty"`
 }
 
 type c02Scenario struct {
@@ -215,7 +217,7 @@ func checkDelivered(call *harness.CCall, r c02Resp) (string, string) {
 		}
 	}
 	for n, vs := range have {
-		if n == "content-type" || n == "content-length" || n == "server" || n == "date" || (n == "x-trailer" || n == "x-trailer-2") && r.Trailers {
+		if n == "content-type" || n == "content-length" || n == "server" || n == "date" || (n == "x-trailer" || n == "x-trailer-2") && r.Trailers || n == "x-early" && len(r.Interim) > 0 {
 			continue
 		}
 		ok := false
@@ -257,6 +259,9 @@ func (r c02Resp) shape() string {
 	}
 	if r.Trailers {
 		p = append(p, "trailers")
+	}
+	if len(r.Interim) > 0 {
+		p = append(p, "after-1xx")
 	}
 	if len(p) == 0 {
 		return "default-encoding"
@@ -319,6 +324,14 @@ func (r c02Resp) track(sc *harness.SrvConn, id uint32) []tframe {
 		}
 	}
 	var tr []tframe
+	// informational responses first: one complete header block each, no END_STREAM
+	for _, st := range r.Interim {
+		st := st
+		tr = append(tr, tframe{f: func() []peer.Frame {
+			blk := sc.Enc.Block([]ref.Field{{Name: ":status", Value: st}, {Name: "x-early", Value: "hint-" + st}}, nil)
+			return []peer.Frame{peer.Headers(id, blk, peer.HeadersOpt{EndHeaders: true, Pad: -1})}
+		}})
+	}
 	// number of frames is known only after building; build eagerly per first use
 	n := 1 + len(r.Splits)
 	body := len(r.Body)
@@ -518,6 +531,23 @@ func runC02(c *fw.Ctx) {
 					do(c02Scenario{Family: "response-encoding", Reqs: []int{0}, Resps: []c02Resp{r}})
 				}
 			}
+		}
+	}
+	// informational responses before the final one (RFC 7540 8.1): the caller gets the final response only
+	for _, interim := range [][]string{{"103"}, {"100"}, {"103", "103"}, {"100", "103"}} {
+		for _, variant := range []int{0, 1, 2, 3} {
+			r := base
+			r.Interim = interim
+			switch variant {
+			case 1:
+				r.Splits = []int{5}
+			case 2:
+				r.Trailers = true
+			case 3:
+				r.Body = ""
+			}
+			do(c02Scenario{Family: "response-encoding", Reqs: []int{0}, Resps: []c02Resp{r}})
+			do(c02Scenario{Family: "response-encoding", Reqs: []int{1}, Resps: []c02Resp{r}})
 		}
 	}
 	for _, status := range []string{"200", "204", "404", "500", "299"} {
